@@ -62,6 +62,8 @@ def families(tier, seed):
     for i in range(8):
         out.append(dict(name=f'closed-loop monitor streett games part {i}', run=gm.monitor('streett', seed * 100 + i, n // 8, 'cudd'), label='bounded'))
     out.append(dict(name='closed-loop monitor streett games (autoref)', run=gm.monitor('streett', seed * 100 + 50, n // 8, 'autoref'), label='bounded'))
+    from contracts import optdiff as _od
+    out.append(dict(name='same results with assert statements stripped (python -O), section C01', run=_od.family('C01'), label='bounded'))
     return out
 
 
